@@ -208,7 +208,21 @@ class Flow:
         return ("star", self.ev(n.value))
 
     def e_BinOp(self, n):
-        return ("binop", type(n.op).__name__, self.ev(n.left), self.ev(n.right))
+        l, r = self.ev(n.left), self.ev(n.right)
+        if isinstance(n.op, ast.Add):
+            # "text" + x + "text": the same string as f"text{x}text" (one side being text makes the other text too)
+            def textual(v):
+                return (v[0] == "const" and isinstance(v[1], str)) or v[0] == "fstr" or (v[0] == "join")
+
+            def parts(v):
+                if v[0] == "const" and isinstance(v[1], str):
+                    return (v,)
+                if v[0] == "fstr":
+                    return tuple(v[1])
+                return (("fmt", v, None, -1),)
+            if textual(l) or textual(r):
+                return flatten_fstr(("fstr", parts(l) + parts(r)))
+        return ("binop", type(n.op).__name__, l, r)
 
     def e_UnaryOp(self, n):
         return ("unop", type(n.op).__name__, self.ev(n.operand))
@@ -273,6 +287,10 @@ class Flow:
             obj = self.ev(f.value)
             if f.attr == "join" and len(args) == 1 and not kws:
                 return ("join", obj, args[0])
+            if f.attr == "format" and obj[0] == "const" and isinstance(obj[1], str):
+                fs = self._format_to_fstr(obj[1], args, dict(kws))
+                if fs is not None:
+                    return fs
             if f.attr == "copy" and not args:
                 return ("copy", obj)
             if obj in (("param", "self"), ("param", "cls")) and self.resolver is not None and self._depth < 2 and all(k != "**" for k, _ in kws):
@@ -308,6 +326,45 @@ class Flow:
         if isinstance(f, ast.Name) and f.id == "tqdm" and args:
             return args[0]
         return ("call", self.ev(f), args, kws)
+
+    @staticmethod
+    def _format_to_fstr(text, args, kws):
+        """'a{}b{0:>4}{name!r}'.format(..) as the f-string it is equal to; None when a field is not a plain index / name."""
+        import string
+        parts = []
+        auto = 0
+        try:
+            fields = list(string.Formatter().parse(text))
+        except ValueError:
+            return None
+        for lit, field, spec, conv in fields:
+            if lit:
+                parts.append(("const", lit))
+            if field is None:
+                continue
+            if field == "":
+                if auto >= len(args):
+                    return None
+                val = args[auto]
+                auto += 1
+            elif field.isdigit():
+                if int(field) >= len(args):
+                    return None
+                val = args[int(field)]
+            elif field.isidentifier() and field in kws:
+                val = kws[field]
+            else:
+                return None
+            if spec and ("{" in spec):
+                return None
+            c = -1 if conv is None else ord(conv)
+            if not spec and c == -1 and val[0] == "const" and isinstance(val[1], str):
+                parts.append(val)
+            elif not spec and c == -1 and val[0] == "fstr":
+                parts.extend(val[1])
+            else:
+                parts.append(("fmt", val, spec or None, c))
+        return flatten_fstr(("fstr", tuple(parts)))
 
     def _inline(self, callee, args, kws=None):
         """Value returned by a small, loop-free helper method for these argument values (phi over its returns).  Instance, class
